@@ -152,6 +152,13 @@ def _bumpr(e):
     return None
 
 
+def _convtype(e):
+    if e.get('op') == 'conv' and e.get('outcome') == 'value' and e.get('to') not in ('Object', 'Null') and e['v']['t'] != e['to']:
+        e['r']['t'] = 'Array' if e['r']['t'] != 'Array' else 'Object'
+        return e
+    return None
+
+
 PROPS = {
     'C11': dict(
         tv=dict(module='ScannerTrace', cfg='ScannerTrace.cfg'),
@@ -256,6 +263,12 @@ PROPS = {
         tv=dict(module='VariantOpsTrace', cfg='VariantOpsTrace.cfg'),
         mc=[],
         corrupt=[('result number + 1', _bumpr)],
+        exhaustive_part=True,
+    ),
+    'C07': dict(
+        tv=dict(module='VariantConvTrace', cfg='VariantConvTrace.cfg'),
+        mc=[],
+        corrupt=[('change the result type', _convtype)],
         exhaustive_part=True,
     ),
 }
@@ -445,5 +458,16 @@ DOC = {
              'overflow and of inexact floating-point operations (laws only), shifts by >= the word size, which error code is used, how '
              'Object/Array values are rendered when concatenated to a string, Pow with a non-numeric second operand.',
         technique='TLA+ operator/conversion value model (VariantOps) + TLC trace validation of all operator x operand-pair cells on both managers',
+    ),
+    'C07': dict(
+        level='VariantOps.tla holds the conversion matrix of both managers (type-safe: exactly the six numeric widenings plus identity/Object/Null '
+              'requests) and VariantConvTrace.tla the clauses: success => requested type (unchanged value for Object / own type); formulas on '
+              'the exactly modelled domain (truncation, Boolean <-> 0/1, TimeSpan in milliseconds, DateTime in Unix seconds, decimal text); '
+              'type-safe success => same result as type-unsafe; the round trips the statement lists, judged on canonical payload strings so '
+              'that the int64 extremes and the 2^53 / 2^24 boundaries are in scope. Both real managers convert every value of a boundary '
+              'pool plus seeded random values to all 11 targets, and every two-step chain value -> via -> original type.',
+        note='Trusted: TLC, Json module, recorder (flags |v| <= 2^53 and "has no fraction" are facts about the input computed by the recorder). '
+             'Left open: the text produced for Float/Double/DateTime/TimeSpan -> String, conversions of unparsable strings.',
+        technique='TLA+ conversion matrix and formulas (VariantOps/VariantConvTrace) + TLC trace validation of value x target x manager and of two-step chains',
     ),
 }
